@@ -111,12 +111,19 @@ def ref_apply(fam, npar, cols):
     return out
 
 
-def check_case(p, code, lab, fam, src, states, n, ch=None):
+def check_case(p, code, lab, fam, src, states, n, ch=None, shared=None):
+    """`shared`: dict in which the ANM object (and its recorder) of this (graph, labeling, family, source style) is kept, so that one
+    model serves the whole sequence of intervention assignments and sample sizes - as in real use."""
     if ch is None:
         ch, _ = G.decode(p, code)
     A = _g.np_dag(p, ch, lab if lab != "bin" else "binint")
     pa = G.parents(p, ch)
-    rec = Recorder(p)
+    key = (p, tuple(ch), lab, fam, src)
+    if shared is not None and key in shared:
+        rec, anm_shared = shared[key]
+        rec.draws, rec.handed, rec.inputs, rec.bad_n = {}, {}, {}, []
+    else:
+        rec, anm_shared = Recorder(p), None
     assignments, noises = [], []
     for j in range(p):
         ps = G.bits(pa[j])
@@ -136,7 +143,9 @@ def check_case(p, code, lab, fam, src, states, n, ch=None):
             nz[j] = rec.source("newnoise%d" % j, 24 + j)
     d = "ANM(A=%s, %s assignments).sample(%d, do=%s, shift=%s, noise=%s)" % (A.tolist(), fam, n, sorted(do), sorted(shift), sorted(nz))
     try:
-        anm = sempler.ANM(A, assignments, noises)
+        anm = anm_shared if anm_shared is not None else sempler.ANM(A, assignments, noises)
+        if shared is not None and anm_shared is None:
+            shared[key] = (rec, anm)
         X = anm.sample(n, do_interventions=do, shift_interventions=shift, noise_interventions=nz)
     except Exception as e:
         return [("raises", "%s raised %r" % (d, e))]
@@ -239,9 +248,10 @@ def run_unit(unit):
         for lab in unit["labs"]:
             for fam in unit["fams"]:
                 for src in unit["src"]:
+                    shared = {}
                     for states in itertools.product(range(7), repeat=p):
                         for n in unit["ns"]:
-                            f = check_case(p, code, lab, fam, src, states, n)
+                            f = check_case(p, code, lab, fam, src, states, n, shared=shared)
                             acc.states += 1
                             acc.traces += 1
                             acc.transitions += 1
